@@ -17,8 +17,7 @@ open Gwb
 #print axioms C15_normalised_sizes_sum_one_deflected
 #print axioms C15_fixed_sizes_as_given_deflected
 #print axioms C15_uniform_in_bounds
-#print axioms C15_random_composition_bounds_index0
-#print axioms C15_random_composition_bounds_full_false
+#print axioms C15_random_composition_bounds
 #print axioms C15_deterministic
 #print axioms C15_deterministic_history
 #print axioms C15_seed_deterministic
@@ -39,8 +38,7 @@ open Gwb
 #check @C15_normalised_sizes_sum_one_deflected
 #check @C15_fixed_sizes_as_given_deflected
 #check @C15_uniform_in_bounds
-#check @C15_random_composition_bounds_index0
-#check @C15_random_composition_bounds_full_false
+#check @C15_random_composition_bounds
 #check @C15_deterministic
 #check @C15_deterministic_history
 #check @C15_seed_deterministic
